@@ -17,6 +17,9 @@ CONSTANTS Mode, MaxToks, TokSel, PruneToks, EmitEvery,
 
 VARIABLE st
 
+RECURSIVE Pad(_)
+Pad(k) == IF k <= 0 THEN "" ELSE "z" \o Pad(k - 1)
+(* names of the model that start with a lower-case letter (paddings of x and k: see LongNamesLower) *)
 LowerNamesMC == {"a", "b", "b1", "int", "v", "n", "x", "x1", "t", "k", "y"}
 Alphabet == IF TokSel = "core" THEN Core2 ELSE Alphabet2
 
@@ -150,8 +153,6 @@ D2Finish == /\ \/ st.ph \in {"struct", "finish", "retstruct"}
 
 (* Stretch: pad the name of the last field of the last declaration so that the measured one-line length is *)
 (* threshold + d                                                                                           *)
-RECURSIVE Pad(_)
-Pad(k) == IF k <= 0 THEN "" ELSE "z" \o Pad(k - 1)
 LastDef(c) == IF c.fn THEN c.ret[1] ELSE c.def[1]
 StretchDecl(c, k) ==       \* pad the last field of a struct / of the arguments
   IF c.fn /\ c.args # <<>> THEN [c EXCEPT !.args[Len(c.args)].n = @ \o Pad(k)]
@@ -161,7 +162,7 @@ StretchVar(c, k) ==        \* pad the last field of the last variant of a union 
   IF ~c.fn /\ c.def[1].un /\ c.def[1].vs[Len(c.def[1].vs)].fs # <<>>
   THEN LET n == Len(c.def[1].vs) m == Len(c.def[1].vs[n].fs) IN [c EXCEPT !.def[1].vs[n].fs[m].n = @ \o Pad(k)]
   ELSE c
-Paddable(f) == ~f.ign
+Paddable(f) == ~f.ign /\ f.n \in {"x", "k"}
 Stretch == /\ st.ph = "idle" /\ ~st.str /\ Left >= 1
            /\ LET n == Len(st.done) c == st.done[n] IN
               \E d \in {-1, 0, 1, 2} :
@@ -199,11 +200,12 @@ Payload ==
     [] st.ph = "laid" ->
          LET lay == Layouts2[st.l]
              r == Render2(st.done, lay)
-         IN [ph |-> "laid", w |-> st.w, l |-> st.l, ast |-> st.done, toks |-> TokPairs(r), offs |-> Offs(r),
-             fmt |-> FFile(st.done, DefaultOpts), fmtc |-> FFile(st.done, CanonicalOpts),
-             nobar |-> FFileV(st.done, DefaultOpts, FALSE), nobarc |-> FFileV(st.done, CanonicalOpts, FALSE),
-             den |-> [i \in 1..Len(st.done) |-> Denotes2(st.done[i], FALSE)],
-             denc |-> [i \in 1..Len(st.done) |-> Denotes2(st.done[i], TRUE)]]
+             e == [i \in 1..Len(st.done) |-> ParsedAs(st.done[i])]
+         IN [ph |-> "laid", w |-> st.w, l |-> st.l, ast |-> e, toks |-> TokPairs(r), offs |-> Offs(r),
+             fmt |-> FFile(e, DefaultOpts), fmtc |-> FFile(e, CanonicalOpts),
+             nobar |-> FFileV(e, DefaultOpts, FALSE), nobarc |-> FFileV(e, CanonicalOpts, FALSE),
+             den |-> [i \in 1..Len(e) |-> Denotes2(e[i], FALSE)],
+             denc |-> [i \in 1..Len(e) |-> Denotes2(e[i], TRUE)]]
     [] OTHER -> [ph |-> st.ph]
 WantEmit == \/ st.ph \in {"mut", "laid"}
             \/ st.ph = "tok" /\ Len(st.sig) % EmitEvery = 0
